@@ -267,7 +267,9 @@ WRAP2 = ("RxxGate", "RyyGate", "RzzGate", "ISwapGate")
 
 def views(circ):
     qib = _ctx["qib"]
-    if not circ.gates or any(isinstance(g, qib.operator.ControlInstruction) for g in circ.gates):
+    real = [g for g in circ.gates if not isinstance(g, qib.operator.ControlInstruction)]
+    has_ctrl = len(real) != len(circ.gates)
+    if not real:
         return None
     def classes(g):
         yield type(g).__name__
@@ -275,9 +277,9 @@ def views(circ):
             yield from classes(g.tgate)
         for t in getattr(g, "tgates", []):
             yield from classes(t)
-    if any(c == "PrepareGate" for g in circ.gates for c in classes(g)):
+    if any(c == "PrepareGate" for g in real for c in classes(g)):
         return None          # documented exception: the network of a preparation gate is the rank-one map |x><0...0|, not its matrix
-    res = {"wrap2": sorted({c for g in circ.gates for c in classes(g) if c in WRAP2})}
+    res = {"wrap2": sorted({c for g in real for c in classes(g) if c in WRAP2})}
     try:
         fl = circ.fields()
         n = sum(f.lattice.nsites for f in fl)
@@ -289,12 +291,15 @@ def views(circ):
     except Exception as e:
         return {"error": f"as_matrix(circ.fields()): {type(e).__name__}: {e}"[:160]}
     try:
-        res["nbonds"] = int(circ.as_tensornet().num_bonds) + 2 * n   # the simulator adds one tensor per input leg
+        with contextlib.redirect_stdout(io.StringIO()):
+            res["nbonds"] = int(circ.as_tensornet().num_bonds) + 2 * n   # the simulator adds one tensor per input leg
     except Exception:
         res["nbonds"] = 0
     for name, fn in (("tensornet", lambda: np.reshape(qib.tensor_network.tensor_network.to_full_tensor(*circ.as_tensornet().contract_einsum()), (2 ** n, 2 ** n))),
                      ("statevector", lambda: np.asarray(qib.simulator.StatevectorSimulator().run(circ)).reshape(-1)),
                      ("tnsim", lambda: np.asarray(qib.simulator.TensorNetworkSimulator().run(circ)).reshape(-1))):
+        if name == "statevector" and has_ctrl:
+            continue        # StatevectorSimulator.run does not skip control instructions (it raises): gates-only circuits for this view
         try:
             with contextlib.redirect_stdout(io.StringIO()):
                 res[name] = fn()
@@ -374,6 +379,8 @@ def oracle(case, o):
             if abs(np.linalg.norm(col0) - 1) > 1e-9:
                 bad.append(("C05:views:col0-norm", f"|U e0| = {np.linalg.norm(col0)}"))
             for name, ref in (("tensornet", M), ("statevector", col0), ("tnsim", col0)):
+                if name not in v:
+                    continue
                 x = v[name]
                 if isinstance(x, str) and name in ("tensornet", "tnsim") and x.startswith("IndexError: string index out of range") and v.get("nbonds", 0) > 52:
                     continue        # NumPy's einsum supports at most 52 distinct labels: resource limit of the single-shot contraction, not a wrong answer
@@ -840,6 +847,15 @@ def _net_fixed_cases():
                       {"gate": {"kind": "phase", "phi": 0.4, "m": 2}, "particles": [[2, 0], [4, 0]]}])
     yield dict(base, gates=[{"gate": {"kind": "multiplexed", "nc": 1, "targets": [Ry(0.2), Ry(-0.9)]}, "particles": [[0, 1], [0, 2]]},
                             {"gate": {"kind": "ctrl", "cls": "barrier"}, "particles": []}, {"gate": H, "particles": [[0, 1]]}])
+    # control instructions that touch a field BEFORE any gate does: the register layout (circ.fields(): order of first appearance,
+    # control instructions included) must be the same for the network, the matrix and the |0> tensors of the simulator
+    bar = lambda ps: {"gate": {"kind": "ctrl", "cls": "barrier"}, "particles": ps}
+    mea = lambda ps: {"gate": {"kind": "ctrl", "cls": "measure"}, "particles": ps}
+    two = dict(base, field_defs=[[0, 2, 2], [2, 2, 2]], order=[2, 0])
+    yield dict(two, gates=[bar([[2, 0]]), {"gate": H, "particles": [[0, 0]]}, {"gate": cn([1], Ry(0.7)), "particles": [[0, 0], [2, 1]]},
+                           {"gate": Ry(0.4), "particles": [[2, 0]]}, {"gate": {"kind": "single", "cls": "TGate", "args": []}, "particles": [[0, 0]]}])
+    yield dict(two, gates=[mea([[2, 1]]), {"gate": Ry(1.1), "particles": [[0, 1]]}, {"gate": cn([0], Ry(-0.6)), "particles": [[2, 0], [0, 1]]}])
+    yield dict(two, order=[0, 2], gates=[{"gate": Ry(1.1), "particles": [[0, 1]]}, bar([[2, 1], [0, 0]]), {"gate": cn([0], Ry(-0.6)), "particles": [[2, 0], [0, 1]]}])
     # two rotation gates whose vectors differ beyond the printed digits of numpy's str(): distinct arrays must get distinct data references
     rot = lambda v: {"kind": "single", "cls": "RotationGate", "args": [v]}
     yield dict(base, gates=[{"gate": rot([0.1, 0.2, 0.3]), "particles": [[0, 1]]}, {"gate": rot([0.1, 0.2, 0.3 + 1e-13]), "particles": [[0, 1]]}])
